@@ -19,7 +19,7 @@ theorem memoised_rules_expected :
     ((List.range XV.Gen.prog.size).filter (fun i => (XV.Gen.prog[i]?.map isMemo).getD false)).map (fun i => XV.Gen.ruleNames[i]?.getD "?") =
       ["simple_stmt", "dotted_name", "block", "dec_primary", "closed_pattern", "attr", "star_pattern", "type_param", "expression",
        "star_expression", "disjunction", "conjunction", "inversion", "bitwise_or", "bitwise_xor", "bitwise_and", "shift_expr",
-       "sum", "term", "factor", "await_primary", "primary", "strings", "arguments", "star_target", "target_with_star_atom",
+       "sum", "term", "factor", "await_primary", "primary", "proc_cmds", "proc_cmd", "strings", "arguments", "star_target", "target_with_star_atom",
        "t_primary", "del_target", "invalid_named_expression"] := by decide +kernel
 
 /-- **C18, instantiated**: no call edge of multiplicity >= 2 lies on a cycle of the shipped parser's non-memoised call graph -/
